@@ -387,7 +387,7 @@ fn workload_c(ctx: &Ctx, env: &Env, rng: &mut Rng, cs: u64) {
     let nblocking = rng.range(1, c);
     for i in 0..c {
         if i < nblocking {
-            scripts.push(RecvScript { ops: vec![if rng.chance(1, 2) { Op::Recv } else { Op::IterNext }], leave: Leave::Loop });
+            scripts.push(RecvScript { ops: vec![if rng.chance(1, 2) { Op::Recv } else { Op::IterNext }], leave: Leave::Loop, after_get: crate::p07::AfterGet::Continue });
         } else {
             let ops = (0..rng.range(1, 2)).map(|_| if rng.chance(1, 4) { Op::TryRecv } else { Op::RecvTimeout(*rng.pick(&touts)) }).collect();
             let leave = match rng.below(3) {
@@ -395,7 +395,7 @@ fn workload_c(ctx: &Ctx, env: &Env, rng: &mut Rng, cs: u64) {
                 1 => Leave::Exit,
                 _ => Leave::SleepMs(rng.range(5, 60) as u64),
             };
-            scripts.push(RecvScript { ops, leave });
+            scripts.push(RecvScript { ops, leave, after_get: crate::p07::AfterGet::Continue });
         }
     }
     let sh = new_shared(c);
